@@ -1,5 +1,6 @@
 //! dsim: deterministic simulation scenarios over the std build of the in-tree dasp crates.
 mod adaptors;
+mod alloc;
 mod adframe;
 mod buffered;
 mod bus;
@@ -13,6 +14,9 @@ mod tree;
 
 use simcore::Scenario;
 
+#[global_allocator]
+static GLOBAL: simcore::alloc::CountingAlloc = simcore::alloc::CountingAlloc;
+
 fn main() {
     let scens: Vec<&dyn Scenario> = vec![
         &ringbuf::BoundedScenario,
@@ -24,6 +28,7 @@ fn main() {
         &eof::EofScenario,
         &converter::ConverterScenario,
         &rms::RmsScenario,
+        &alloc::AllocScenario,
     ];
     simcore::cli::main(&scens)
 }
